@@ -15,6 +15,8 @@ import PygProofs.Lemmas.WrapHistSharp
 import PygModel.Try
 import PygProofs.Lemmas.WrapHistLemmas
 import PygProofs.Lemmas.Pd2npLemmas
+import PygModel.WrapLoops
+import PygProofs.Lemmas.WrapLoopsLemmas
 
 namespace Pyg.Props.C18
 open Pyg
@@ -2073,5 +2075,121 @@ theorem try_value_base_exception_propagates (rep : Nat) :
   constructor
   · exact (try_value_raises_iff _ _ rep 0 () false).2 ⟨rfl, rfl⟩
   · exact (try_value_fallback_iff_base _ _ rep 0 ()).2 (Or.inl ⟨true, rfl, rfl⟩)
+
+/-! ## round k6: `inDomain` as a hypothesis that MATTERS - the stack model whose `loops` layers loop -/
+
+/-- **Inside the domain the looping model is the forwarding model.**  When every `loops` layer of the stack receives an argument
+that is not a list / tuple / dict of one of its types (`inDomain`), `evalChainL` - whose `loops` arm is the code of
+`loops._wrapped`, one call of the next layer per element - returns what `evalChain` returns, for every stack and every call,
+valid or not, raising or not.  So every theorem about `evalChain` is, under `inDomain`, a theorem about `evalChainL`. -/
+theorem evalChainL_in_domain (s : Sig) (body : PDict → Res Val) :
+    ∀ (chain : List (Cls × PDict)) (c : Call), inDomain s chain c = true →
+      evalChainL s body chain c = evalChain s body chain c
+  | [], c, _ => by simp [evalChainL, evalChain]
+  | (.tryValue, p) :: rest, c, h => by
+      simp only [inDomain] at h
+      simp only [evalChainL, evalChain, evalChainL_in_domain s body rest c h]
+      cases evalChain s body rest c <;> rfl
+  | (.tryBack, p) :: rest, c, h => by
+      simp only [inDomain] at h
+      simp only [evalChainL, evalChain, evalChainL_in_domain s body rest c h]
+      cases evalChain s body rest c <;> rfl
+  | (.kwargsSupport, p) :: rest, c, h => by
+      simp only [inDomain] at h
+      simp only [evalChainL, evalChain, evalChainL_in_domain s body rest _ h]
+  | (.cache, p) :: rest, c, h => by
+      simp only [inDomain] at h
+      simp only [evalChainL, evalChain, evalChainL_in_domain s body rest c h]
+  | (.pd2np, p) :: rest, c, h => by
+      simp only [inDomain] at h
+      simp only [evalChainL, evalChain, evalChainL_in_domain s body rest _ h]
+  | (.loops, p) :: rest, c, h => by
+      simp only [inDomain, Bool.and_eq_true] at h
+      obtain ⟨hp, hr⟩ := h
+      have ih := evalChainL_in_domain s body rest (loopsCall s c) hr
+      cases c with
+      | mk args kw =>
+        cases args with
+        | cons a as =>
+          have hl : isLooped (typesOf p) a = false := by simpa [loopsPasses, loopsArg] using hp
+          simp only [evalChainL, evalChain, liftT_not_looped _ _ a as kw hl]
+          simpa [loopsCall, dropAxis_eq_popAxis] using ih
+        | nil =>
+          cases hps : s.params with
+          | nil =>
+            simp only [evalChainL, evalChain, hps]
+            simpa [loopsCall, hps] using ih
+          | cons top ps =>
+            cases hlk : kw.lookup top with
+            | none =>
+              simp only [evalChainL, evalChain, hps, hlk]
+              simpa [loopsCall, hps, hlk] using ih
+            | some arg =>
+              have hl : isLooped (typesOf p) arg = false := by simpa [loopsPasses, loopsArg, hps, hlk] using hp
+              simp only [evalChainL, evalChain, hps, hlk, liftT_not_looped _ _ arg [] _ hl]
+              simpa [loopsCall, hps, hlk, dropAxis_eq_popAxis] using ih
+
+/-- **Transparency of every stack, with the domain as a hypothesis** - about the model whose `loops` layers really loop: a valid
+call on which every `loops` layer receives a non-looped argument returns what `f` returns (exclusions as in
+`stack_transparent_sharp`) … -/
+theorem stack_transparent_in_domain (s : Sig) (body : PDict → Res Val) (chain : List (Cls × PDict)) (c : Call) (v : Val)
+    (hdom : inDomain s chain c = true)
+    (hd : Cls.kwargsSupport ∈ classes chain → ∀ p ∈ c.kw, p.1 ∈ s.params)
+    (hax : Cls.loops ∈ classes chain → ∀ p ∈ c.kw, p.1 ≠ "axis")
+    (hia : Cls.pd2np ∈ classes chain → c.hasIntArr = false)
+    (h : applyFn s body c = .ok v) : evalChainL s body chain c = .ok v := by
+  rw [evalChainL_in_domain s body chain c hdom]
+  exact stack_transparent_sharp s body chain c v hd hax hia h
+
+/-- … and a stack without try_* raises what `f` raises -/
+theorem stack_transparent_raise_in_domain (s : Sig) (body : PDict → Res Val) (chain : List (Cls × PDict)) (c : Call)
+    (hdom : inDomain s chain c = true)
+    (hd : Cls.kwargsSupport ∈ classes chain → ∀ p ∈ c.kw, p.1 ∈ s.params)
+    (hax : Cls.loops ∈ classes chain → ∀ p ∈ c.kw, p.1 ≠ "axis")
+    (hia : Cls.pd2np ∈ classes chain → c.hasIntArr = false)
+    (hc : ∀ w ∈ chain, w.1 ≠ .tryValue ∧ w.1 ≠ .tryBack) : evalChainL s body chain c = applyFn s body c := by
+  rw [evalChainL_in_domain s body chain c hdom]
+  exact stack_transparent_raise_sharp s body chain c hd hax hia hc
+
+/-- **The hypothesis cannot be dropped** (the reviewer's witness): `loops(types=[list])(f)([1, 2])` for `f(a)` - a valid call of
+`f`, no keyword, no array - is outside the domain and the looping model returns `[f(1), f(2)]`, not `f([1, 2])`; the forwarding
+model `evalChain` says `f([1, 2])`, which is why its theorems speak about the code only inside the domain.  With
+`types=[tuple]` the same call is inside and transparent. -/
+theorem loops_outside_domain_not_transparent :
+    let s : Sig := { params := ["a"], defaults := [], varargs := none, varkw := none }
+    let c : Call := { args := [.list [.cell (.int 1), .cell (.int 2)]], kw := [] }
+    let chain (t : String) : List (Cls × PDict) := [(.loops, [("types", .list [.cell (.str t)])])]
+    inDomain s (chain "list") c = false ∧
+    evalChainL s recBody (chain "list") c =
+      .ok (.list [.dict [("a", .cell (.int 1))], .dict [("a", .cell (.int 2))]]) ∧
+    applyFn s recBody c = .ok (.dict [("a", .list [.cell (.int 1), .cell (.int 2)])]) ∧
+    evalChain s recBody (chain "list") c = applyFn s recBody c ∧
+    inDomain s (chain "tuple") c = true ∧ evalChainL s recBody (chain "tuple") c = applyFn s recBody c := by
+  refine ⟨by decide +kernel, by decide +kernel, by decide +kernel, by decide +kernel, by decide +kernel, by decide +kernel⟩
+
+
+/-- `kwargs_support_in_stack` with the domain as a hypothesis, about the looping model -/
+theorem kwargs_support_in_stack_in_domain (s : Sig) (hv : s.varkw = none) (body : PDict → Res Val) (junk : PDict)
+    (hj : ∀ p ∈ junk, p.1 ∉ s.params) (chain : List (Cls × PDict)) (c : Call) (v : Val)
+    (hdom : inDomain s chain { c with kw := c.kw ++ junk } = true)
+    (hk : Cls.kwargsSupport ∈ classes chain)
+    (hax : Cls.loops ∈ classes chain → ∀ p ∈ c.kw ++ junk, p.1 ≠ "axis")
+    (hia : Cls.pd2np ∈ classes chain → ({ c with kw := c.kw ++ junk } : Call).hasIntArr = false)
+    (h : applyFn s body c = .ok v) : evalChainL s body chain { c with kw := c.kw ++ junk } = .ok v := by
+  rw [evalChainL_in_domain s body chain _ hdom]
+  exact kwargs_support_in_stack s hv body junk hj chain c v hk hax hia h
+
+/-- **Outside the domain the `loops` layer is property C19's lifting**: with list, tuple and dict among its types, a `loops`
+layer called with a first positional argument is `Pyg.wrapped` (the model the C19 theorems `lift_sub`, `lift_leaves`,
+`lift_shape_*`, `select_statement` … are about) of "call the rest of the stack" - so those theorems describe what a decorated
+function returns on a container, whatever else is in the stack below. -/
+theorem loops_layer_is_lifting (s : Sig) (body : PDict → Res Val) (p : PDict) (rest : List (Cls × PDict))
+    (a : Val) (as : List Val) (kw : PDict)
+    (hl : (typesOf p).contains "list" = true) (ht : (typesOf p).contains "tuple" = true)
+    (hd : (typesOf p).contains "dict" = true) :
+    evalChainL s body ((.loops, p) :: rest) { args := a :: as, kw := kw } =
+      wrapped (fun leaf args kw => evalChainL s body rest { args := leaf :: args, kw := kw }) a as kw := by
+  simp only [evalChainL]
+  exact liftT_all_eq_wrapped _ _ hl ht hd a as kw
 
 end Pyg.Props.C18
